@@ -1,9 +1,10 @@
 import Exetera.Props.C06
 /-!
-# C06 — witness of the recorded finding NC06d (model mirrors the code as found)
+# C06 — witness of finding NC06d (the as-found variant of the model, `categoricalImport`, mirrors the code before the fix)
 
-A categorical column *without* free text stores `0` for a cell that equals no category key, without flag or error:
-with categories `{"no": 0, "yes": 1}` the cell `maybe` is stored as `0`, i.e. as `no`.
+As found, a categorical column *without* free text stored `0` for a cell that equals no category key, without flag or
+error: with categories `{"no": 0, "yes": 1}` the cell `maybe` was stored as `0`, i.e. as `no`. With
+`fixes/NC06d_strict_categorical_rejects_unknown_text.patch` (`categoricalImportChecked`) the same import raises `ValueError`.
 -/
 namespace Exetera.Witness.C06
 open Exetera Exetera.Transforms Exetera.Spec.Transforms
@@ -21,11 +22,17 @@ theorem chunk_encodes : Encodes chunk [[110, 111], [109, 97, 121, 98, 101], [121
 /-- `maybe` is no key … -/
 theorem maybe_is_no_key : lookup cats [109, 97, 121, 98, 101] = none := by decide
 
-/-- … yet the import succeeds and stores the value of `no` for it -/
+/-- … yet the import as found succeeded and stored the value of `no` for it -/
 theorem nc06d_unmatched_text_stored_as_zero :
     categoricalImport cats [chunk] [] = .ok [0, 0, 1] ∧ lookup cats [110, 111] = some 0 := by
   refine ⟨?_, by decide⟩
   rw [Props.C06.categorical_import cats (by decide) [chunk] _ (.cons chunk_encodes .nil) []]
   rfl
+
+/-- with fix NC06d the same import raises instead -/
+theorem nc06d_repaired_import_raises :
+    categoricalImportChecked cats [chunk] [] = .error (.valueError "is not one of the categories") :=
+  (Props.C06.categorical_property cats (by decide) [chunk] _ (.cons chunk_encodes .nil)).2
+    ⟨[109, 97, 121, 98, 101], by decide, by decide⟩
 
 end Exetera.Witness.C06
